@@ -2191,6 +2191,10 @@ class Tracer:
             tgt, val = st.targets[0], st.value
             if isinstance(val, ast.Call) and self.is_prim(val):
                 return self.event(val, st, tgt)
+            # zeroing of (a window of) a buffer:  B[...] = 0
+            if isinstance(tgt, ast.Subscript) and isinstance(tgt.value, ast.Name) and _is_zero_const(val):
+                self.record_clear(tgt.value, tgt.slice, st)
+                return
             # index-map scatter:  B[IDX] = A
             if isinstance(tgt, ast.Subscript) and isinstance(tgt.value, ast.Name) and isinstance(val, ast.Name) \
                     and "index_map" in self.spec.prims and not isinstance(tgt.slice, (ast.Slice, ast.Tuple)) \
@@ -2214,6 +2218,10 @@ class Tracer:
         if isinstance(st, ast.Expr) and isinstance(st.value, ast.Call):
             if self.is_prim(st.value):
                 return self.event(st.value, st, None)
+            c = st.value
+            if isinstance(c.func, ast.Attribute) and c.func.attr == "fill" and isinstance(c.func.value, ast.Name) \
+                    and c.args and _is_zero_const(c.args[0]):
+                self.record_clear(c.func.value, None, st)
             return
         if isinstance(st, ast.Return) and st.value is not None:
             v = st.value
@@ -2222,6 +2230,21 @@ class Tracer:
             if isinstance(v, ast.Call) and self.is_prim(v):
                 return self.event(v, st, ast.Name(id="<return>", ctx=ast.Store()))
             return
+
+    def record_clear(self, bname, slc, st):
+        root, view = buffer_root(bname, self.alias)
+        full = view == "" and (slc is None or ast.unparse(slc) in (":", "...") or (
+            isinstance(slc, ast.Tuple) and all(ast.unparse(x) == ":" for x in slc.elts)))
+        lo = hi = None
+        if not full and slc is not None:
+            last = slc.elts[-1] if isinstance(slc, ast.Tuple) else slc
+            lead = slc.elts[:-1] if isinstance(slc, ast.Tuple) else []
+            if isinstance(last, ast.Slice) and last.lower is not None and last.upper is not None and last.step is None \
+                    and all(ast.unparse(x) == ":" for x in lead):
+                lo, hi = py_inline(last.lower, self.env), py_inline(last.upper, self.env)
+        self.__dict__.setdefault("clears", []).append(
+            {"root": root, "full": full, "lo": lo, "hi": hi, "node": st, "pos": len(self.events),
+             "guards": tuple(self.guards)})
 
     def define(self, name, val):
         self.assigned[name] = self.assigned.get(name, 0) + 1
@@ -2246,7 +2269,11 @@ class Tracer:
             if isinstance(v, ast.Name) or (r in self.func_locals()):
                 self.alias[name] = (r, view)
                 return
-        # static scalar local: inline (last definition wins in straight-line code)
+        # static scalar local: inline (last definition wins in straight-line code); a parameter
+        # given a default inside an `if` (`if offset is None: offset = 0`) stays symbolic
+        if any(k == "if" for k, _ in self.guards) and name in {a.arg for a in self.func.args.args}:
+            self.env.pop(name, None)
+            return
         if not any(isinstance(x, ast.Call) and self.is_prim(x) for x in ast.walk(val)):
             self.env[name] = py_inline(val, self.env)
 
@@ -2411,6 +2438,10 @@ class Tracer:
             sub.alias[pname] = buffer_root(a, self.alias)
             sub.env[pname] = py_inline(a, self.env)
         sub.block(fn.body)
+        for c in sub.__dict__.get("clears", []):
+            c2 = dict(c)
+            c2["pos"] = len(self.events) + c["pos"]
+            self.__dict__.setdefault("clears", []).append(c2)
         site = getattr(self, "site", None) or st
         for e in sub.events:
             e.order = len(self.events)
